@@ -11,7 +11,7 @@ for f in sorted(glob.glob('/verif/seeded/C*/meta.json')):
         if l and not re.match(r'^C\d\d seed', l):
             first = l
             break
-    first = re.sub(r'\s+', ' ', first)[:260].replace('|', '/')
+    first = re.sub(r"\s+", " ", first)[:150].replace('|', '/')
     runs = m.get('check_results', {})
     own = runs.get(m['breaks_property'])
     if own is None:
